@@ -81,6 +81,7 @@ def run(ctx):
     reserve_commit(ctx, core)
     reserve_commit(ctx, ctx.facts("effects.cpp", "A", ()))
     store_usage(ctx, core)
+    string_flag(ctx, ctx.facts("effects.cpp", "A", ()), core)
 
 
 def matrix_witness():
@@ -441,3 +442,46 @@ def store_usage(ctx, facts):
     ctx.ob("C04.R5b", "_format_args_store:used-inside-the-read-window", not bad and n >= 3,
            "the decoded argument views are used only by the decode function and its callees, i.e. before finish_read lets the producer "
            "overwrite the bytes (%d user(s)%s)" % (n, (", outside: " + ", ".join(bad)) if bad else ""))
+
+
+def string_flag(ctx, eff, core):
+    """the 'contains string-like data' flag that gates the non-printable sanitiser is raised for every string-like decoded argument
+    and the store is cleared per statement"""
+    n = 0
+    for f in eff.fn("quill::DynamicFormatArgStore::push_back", "A"):
+        t = (f.rec.get("targs") or ["?"])[0]
+        stringish = bool(re.search(r"basic_string_view<char|^char$|^const char \*$|basic_string<char", t))
+        sets = [x for x in f.walk() if x["k"] == "BinaryOperator" and x["op"] == "=" and is_this_field(x["lhs"], "_has_string_related_type") and const_val(x["rhs"]) == 1]
+        if not stringish:
+            continue
+        n += 1
+        g = f.g
+        sp = npos(f, sets)
+        ok = bool(sp) and not g.exists_path([g.entry_node], [g.exit_node], avoid_nodes=sp)
+        ctx.ob("C04.R6a", "DynamicFormatArgStore::push_back<%s>:marks-string" % t[:60], ok,
+               "storing a decoded %s argument marks the statement as containing string-like data (the sanitiser is skipped otherwise)" % t[:60], fn=f)
+    ctx.floor("C04.R6a", "string-like push_back instantiations", n, 2)
+    c = eff.need("quill::DynamicFormatArgStore::clear", "A")[0]
+    ok = any(x["k"] == "BinaryOperator" and x["op"] == "=" and is_this_field(x["lhs"], "_has_string_related_type") and const_val(x["rhs"]) == 0 for x in c.walk()) and \
+        any(is_call(x, r"std::vector<.*>::clear$") and is_this_field(call_obj(x), "_data") for x in c.walk())
+    ctx.ob("C04.R6b", "DynamicFormatArgStore::clear", ok, "clear() empties the argument list and resets the flag", fn=c)
+    m = 0
+    for f in eff.fn("quill::detail::decode_and_store_args", "A"):
+        g = f.g
+        cl = cpos(f, r"DynamicFormatArgStore::clear$")
+        de = cpos(f, r"::decode_and_store_arg<")
+        ok = bool(cl) and bool(de) and all(g.dominates(cl, p) for p in de)
+        m += 1
+        if m <= 20:
+            ctx.ob("C04.R6c", "decode_and_store_args#%d:clears-first" % m, ok,
+                   "the decoder thunk clears the store before decoding a statement's arguments (no argument of the previous statement leaks)", fn=f)
+    ctx.floor("C04.R6c", "decoder thunks", m, 10)
+    f = core.need("quill::detail::BackendWorker::_populate_formatted_log_message", "A")[0]
+    g = f.g
+    san = cpos(f, r"::sanitize_non_printable_chars<")
+    fmt = cpos(f, r"^fmtquill::(v\d+::)?vformat_to")
+    hb = branches_on_call(f, r"DynamicFormatArgStore::has_string_related_type$")
+    ok = bool(san) and bool(fmt) and bool(hb) and all(g.dominates(fmt, p) for p in san) and \
+        not g.exists_path([g.entry_node], san, avoid_edges=[(b, t) for (b, t, c) in hb])
+    ctx.ob("C04.R6d", "_populate_formatted_log_message:sanitise-after-format", ok,
+           "the sanitiser runs on the formatted message, after formatting, for statements that carry string-like data", fn=f)
